@@ -299,8 +299,11 @@ func (w *world) checkIdle(where string) {
 		w.fail("violation", "C16/follower-unreadable", fmt.Sprintf("%s: sidecar=%d err=%v", where, t, err))
 		return
 	}
-	if t < w.dirty {
-		// killed while applying files up to TXID `dirty`; they are re-applied before the sidecar passes it
+	if t < w.dirty || t < w.maxOpened {
+		// killed while applying files up to TXID `dirty`, or a poll applied files up to
+		// `maxOpened` and then failed before writing the sidecar (e.g. the follower fell
+		// behind retention and cannot bridge the gap): the database is ahead of its sidecar;
+		// those files are re-applied before the sidecar passes them
 		w.count("check/skipped-half-applied")
 		return
 	}
